@@ -145,6 +145,41 @@ class HotRandom(Source):
         return cur
 
 
+class Stall(Source):
+    """long delays at synchronisation points: the k-th 'hot' yield (a lock just released, the trigger about to be pulled, a
+    condition notified, a send returned) of the run stalls the thread that reached it for `dur` further decisions - it is not
+    scheduled while anything else can run - and everything else follows a light random policy.  Reaches the windows between a
+    decision taken under a lock and the action that follows the release ("stale decision"), which need one thread to stand
+    still while two or three others make progress."""
+
+    HOT = ("lock.release", "trigger.pull", "cond.notify", "sock.send.ret", "app.iter")
+
+    def __init__(self, seed, stalls=1, est_hot=80, max_dur=200, p=0.05):
+        import random
+        self.rnd = random.Random(seed)
+        self.points = sorted((self.rnd.randrange(0, est_hot), self.rnd.randrange(5, max_dur)) for _ in range(stalls))
+        self.hot_seen = 0
+        self.stalled = {}      # thread idx -> decisions left
+        self.p = p
+
+    def choose(self, sched, cur, options, kind, yielding):
+        for k in list(self.stalled):
+            self.stalled[k] -= 1
+            if self.stalled[k] <= 0:
+                del self.stalled[k]
+        if kind in self.HOT and cur in options:
+            if self.points and self.hot_seen >= self.points[0][0]:
+                self.stalled[cur.idx] = self.points.pop(0)[1]
+            self.hot_seen += 1
+        free = sorted([t for t in options if t.idx not in self.stalled], key=lambda t: t.idx) or sorted(options, key=lambda t: t.idx)
+        others = [t for t in free if t is not cur]
+        if cur not in free or (yielding and others):
+            return self.rnd.choice(others or free)
+        if others and self.rnd.random() < self.p:
+            return self.rnd.choice(others)
+        return cur
+
+
 class PCT(Source):
     """probabilistic concurrency testing: random priorities, d priority change points"""
 
